@@ -153,6 +153,26 @@ static void fill_mixed(uint8_t *p, size_t n, uint64_t seed)
 		memcpy(p + n - 300, p + n - 300 - 32768, 300); /* repeat at distance exactly 32768 */
 }
 
+/* FARMIX: mostly copies from 16K..32K back with assorted lengths 3..258, a few literals in between: produces the widest
+ * encoded symbols (long length + 13 distance extra bits) back to back - the bit-buffer budget of the vector encoders */
+static void fill_farmix(uint8_t *p, size_t n, uint64_t seed)
+{
+	uint64_t s = seed * 0x9e3779b97f4a7c15ull + 12345;
+	size_t pos = n < 32768 ? n : 32768;
+	fill_xorshift(p, pos, seed + 1);
+	while (pos < n) {
+		uint64_t r = xs_next(&s);
+		size_t len = 3 + r % 256, dist = 16385 + (r >> 16) % 16384;
+		if ((r >> 40) % 8 == 0) {
+			size_t nl = 1 + (r >> 44) % 3;
+			for (size_t i = 0; i < nl && pos < n; i++)
+				p[pos++] = (uint8_t)(r >> (48 + 4 * i));
+		}
+		for (size_t i = 0; i < len && pos < n; i++, pos++)
+			p[pos] = p[pos - dist];
+	}
+}
+
 /* ---------- ISA-L deflate driver ---------- */
 struct cparams { int level, flush, gzip_flag, hist_bits, huff, lbuf, api, cin, cout; };
 enum { API_STATELESS, API_ONECALL, API_CHUNKED };
